@@ -230,8 +230,17 @@ def mon_c07(w, pre, res, queues):
         ps = pre.servers.get(before)
         if p is None or ps is None or ps['state'] is not State.up:
             continue
-        if p['blacklisted'] or app.blacklisted or p['renew']:
+        if p['blacklisted'] or app.blacklisted:
             continue
+        if p['renew']:
+            # "failing a lease renewal" by the stated rule: the lease, taken
+            # from now, does not end before the server's reboot
+            from mc.vclock import BASE
+            lease = p['lease'] or 0
+            if lease and not (BASE + pre.now_L + lease < ps['valid_until']):
+                w.stats['c07_failed_renewals'] += 1
+                continue
+            w.stats['c07_renewals_that_fit'] += 1
         if getattr(app, 'final_rank', None) == UNPLACED:
             continue
         if p['group'] is not None:
